@@ -21,6 +21,12 @@ def run(P, R, L):
     K.grd3_sequence_filter(P, R, L)
     R.clause("SRC-1", "the client iterator merges every source: mutable memtable, immutable memtable (when present), one iterator per level-0 file and per non-empty deeper level")
     K.src1_iterator_sources(P, R, L)
+    R.clause("LCK-2", "new_iterator captures sequence, memtable, immutable memtable and version in one critical section (an iterator whose sequence "
+             "covers entries that are in none of its children skips visible keys)")
+    K.lck_capture(P, R, L, "LCK-2", [K.NEW_ITER], {K.NEW_ITER: ["sequence", "memtable", "imm", "version"]})
+    R.clause("PAIR-12", "the two-level iterator's (data block iterator, handle of the loaded block) pair is always written together (a stale handle makes "
+             "init_data_block skip loading the block)")
+    K.pair12_file_level_pairs(P, R, L, only={"tables::table::TwoLevelIterator"})
     R.not_decided += ["which element a data-dependent loop stops on (the equivalence with a sorted-map cursor)",
                       "re-positioning of non-current children on direction change", "tombstone / shadowing logic beyond the sequence filter"]
     R.assumptions += ["the helpers named in the direction table do what their names say (their bodies are value-level)"]
